@@ -20,10 +20,12 @@ class Runaway(BaseException):
     pass
 
 
-class StubChaperone:
-    """fold_enhanced is decided by the generator's declared outcome for that text"""
+class StubChaperone(Chaperone):
+    """a real Chaperone (so that every attribute the loop may consult exists) whose fold_enhanced is decided by the
+    generator's declared outcome for that text"""
 
     def __init__(self, verdicts):
+        super().__init__(silent=True)
         self.verdicts = verdicts      # raw text -> (valid, error_trace)
         self.folds = []
 
